@@ -141,7 +141,7 @@ let () =
           | "write" -> s := step !s EWrite; "OK"
           | "move" -> s := step !s EMove; s := run_thread (n_of_int 2) (-1) !s; obs !s
           | "crash" -> s := step !s ECrash; obs !s
-          | "take" -> s := step !s (ETake (n_of_dec rest)); obs !s
+          | "take" -> let r = n_of_dec rest in s := step !s (ETake r); s := run_thread (N.add (n_of_int 3) r) (-1) !s; obs !s
           | "drop" -> let r = n_of_dec rest in s := step !s (EDrop r); s := run_thread (N.add (n_of_int 3) r) (-1) !s; obs !s
           | "dropbegin" -> s := step !s (EDrop (n_of_dec rest)); obs !s
           | "flush" | "flushbegin" ->
